@@ -460,10 +460,11 @@ Proof.
   - destruct (is_aggr_call _); [apply clean_aggr_args | exact I].
 Qed.
 
-Lemma clean_validate_fields : forall todo done, clean (validate_fields fo true done todo).
+Lemma clean_validate_fields : forall todo all, clean (validate_fields fo true all todo).
 Proof.
-  induction todo as [|[n f] todo IH]; intros done; cbn [validate_fields]; [exact I|].
-  apply clean_bind; [apply clean_check|intros f2]. apply clean_bind; [apply clean_aggr_field|intros u]. apply IH.
+  induction todo as [|[n f] todo IH]; intros all; cbn [validate_fields]; [exact I|].
+  apply clean_bind; [apply clean_check|intros f2]. apply clean_bind; [apply clean_aggr_field|intros u].
+  apply clean_bind; [apply IH|intros r; exact I].
 Qed.
 
 Lemma clean_check_calls : forall a e, clean (check_calls a e).
@@ -497,7 +498,7 @@ Qed.
 (* Parser.Parse's checks + checkStatementFunctionCalls on a select statement without ORDER BY *)
 Lemma clean_build_check_select fields w : clean (build_check fo true (SSelect fields w [])).
 Proof.
-  unfold build_check. cbn [check_stmt]. unfold check_select. cbn [check_order].
+  unfold build_check. cbn [check_stmt]. unfold check_select. cbv zeta. cbn [check_order].
   apply clean_bind.
   - apply clean_bind; [exact I|intros u]. apply clean_bind; [apply clean_check|intros w1].
     apply clean_bind; [unfold where_bool; cl|intros u2].
@@ -539,15 +540,15 @@ Lemma checked_where_inv q w2 :
   checked_where fo q = TOk w2 ->
   exists names P w1,
     parsed_where q = TOk (names, P) /\
-    check fo true (Cctx names false false) P = Value.Ok w1 /\
-    w2 = rewrite_name names w1.
+    check fo true (Cctx (link names) false false) P = Value.Ok w1 /\
+    w2 = rewrite_name (link names) w1.
 Proof.
   unfold checked_where. destruct (parsed_where q) as [[names P]| | | | |] eqn:Hp; cbn [tbind]; try discriminate.
   cbn [fst snd].
   destruct (build_check fo true (SSelect names P [])) as [s2|[]| |] eqn:Hb; cbn [of_check tbind]; try discriminate.
   intros H. exists names, P.
   unfold build_check in Hb. inv_bind Hb as s1 Hs1 Hb. inv_bind Hb as u Hu Hb. inversion Hb; subst s2. clear Hb.
-  cbn [check_stmt] in Hs1. unfold check_select in Hs1. cbn [check_order] in Hs1.
+  cbn [check_stmt] in Hs1. unfold check_select in Hs1. cbv zeta in Hs1. cbn [check_order] in Hs1.
   inv_bind Hs1 as u0 Hu0 Hs1. inv_bind Hs1 as w1 Hw1 Hs1. inv_bind Hs1 as u1 Hu1 Hs1.
   inv_bind Hs1 as f2 Hf2 Hs1. inversion Hs1; subst s1. injection H as <-.
   exists w1. auto.
@@ -558,7 +559,8 @@ Lemma checked_where_plain q P w2 :
   parsed_where q = TOk ([], P) -> checked_where fo q = TOk w2 -> w2 = P.
 Proof.
   intros Hp Hc. destruct (checked_where_inv _ _ Hc) as (names & P' & w1 & Hp' & Hck & ->).
-  rewrite Hp in Hp'. injection Hp' as <- <-. rewrite rw_nil. exact (check_nil_id fo _ _ _ _ Hck).
+  rewrite Hp in Hp'. injection Hp' as <- <-. change (link []) with (@nil (string * expr)) in *.
+  rewrite rw_nil. exact (check_nil_id fo _ _ _ _ Hck).
 Qed.
 
 Section Rows.
@@ -578,9 +580,9 @@ Proof.
   rewrite Hparsed in Hp'. injection Hp' as <- <-.
   destruct (Hevaluable kv Hin) as [b Hb].
   assert (Hb2 : sem fo re_spec (fst kv) (snd kv) w2 = Some (SBool b)).
-  { rewrite Hw2. exact (check_sem_mono fo re_spec (Cctx names false false) _ _ P w1 _ Hck Hb). }
+  { rewrite Hw2. exact (check_sem_mono fo re_spec (Cctx (link names) false false) _ _ P w1 _ Hck Hb). }
   pose proof (filter_refines_sem fo re_match re_spec re_agree _ _ _ _ Hb2) as Hf.
-  assert (Hwt : Fold.wt w2 = true) by (rewrite Hw2; exact (check_fold_wt fo (Cctx names false false) P w1 Hck)).
+  assert (Hwt : Fold.wt w2 = true) by (rewrite Hw2; exact (check_fold_wt fo (Cctx (link names) false false) P w1 Hck)).
   pose proof (fold_preserves_filter fo re_match fmt_v fmt_round w2 _ _ b Hwt (Hreassoc kv Hin) Hf) as Hff.
   unfold Pipeline.filter_of, selects. rewrite Hff, Hb. destruct b; reflexivity.
 Qed.
@@ -697,7 +699,7 @@ Proof.
   destruct (build_check fo true (SSelect names P [])) as [s2|[]| |] eqn:Hb; cbn [clean] in Hcl; try contradiction;
     cbn [of_check tbind]; eauto.
   unfold build_check in Hb. inv_bind Hb as s1 Hs1 Hb. inv_bind Hb as u Hu Hb. inversion Hb; subst s2.
-  cbn [check_stmt] in Hs1. unfold check_select in Hs1. cbn [check_order] in Hs1.
+  cbn [check_stmt] in Hs1. unfold check_select in Hs1. cbv zeta in Hs1. cbn [check_order] in Hs1.
   inv_bind Hs1 as u0 Hu0 Hs1. inv_bind Hs1 as w1 Hw1 Hs1. inv_bind Hs1 as u1 Hu1 Hs1.
   inv_bind Hs1 as f2 Hf2 Hs1. inversion Hs1; subst s1. eauto.
 Qed.
